@@ -40,6 +40,7 @@ type hprog struct {
 	// (the pattern of the net/http documentation), instead of after the body
 	TrailerEarly bool
 	EmptyWrite   bool // a zero-length Write before the first part
+	EmptyThen    int  // ... followed by header changes and a WriteHeader with this status (0 = none): the zero-length write has committed the response, all of it is ignored
 	LateHeader   bool // after WriteHeader the handler still changes the header map (net/http ignores that)
 	// AfterBody: the handler never calls WriteHeader (the first write commits an implicit 200
 	// with the header as it stands then); after its last write it changes the header map and
@@ -126,6 +127,12 @@ func (ps *progServer) base(w http.ResponseWriter, r *http.Request) {
 	}
 	if p.EmptyWrite {
 		w.Write(nil)
+		if p.EmptyThen != 0 {
+			w.Header().Set("Cache-Control", "no-store")
+			w.Header().Set("X-After-Empty", "1")
+			w.Header().Del("X-Prog")
+			w.WriteHeader(p.EmptyThen)
+		}
 	}
 	if p.Copy {
 		var all []byte
@@ -267,6 +274,7 @@ type c14Case struct {
 	TrEarly  bool   // the trailer value is set before the first write
 	After    bool   // header changes and a WriteHeader(500) after the body (implicit status)
 	Empty    bool   // zero-length first write
+	EmptyTh  int    // header changes and a WriteHeader(EmptyTh) right after the zero-length write
 	AskUp    bool   // the request asks for a protocol upgrade (which the handler / backend declines)
 	Copy     bool   // body via io.Copy
 	CType    string // response Content-Type ("" = text/plain, "-" = none)
@@ -278,7 +286,7 @@ type c14Case struct {
 }
 
 func (c c14Case) String() string {
-	return fmt.Sprintf("L=%d pos=%s %s status=%d writes=%v flush=%s declare=%v interim=%d entity=%d status2=%d trailer=%v%s emptywrite=%v asks-upgrade=%v copy=%v ctype=%q abort=%v late-header=%v%s", c.L, c.Position, c.Method, c.Status, c.Comp, c.Flush, c.Declare, c.Interim, c.Entity, c.Status2, c.Trailer, map[bool]string{true: "(set before the first write)"}[c.TrEarly], c.Empty, c.AskUp, c.Copy, c.CType, c.Abort, c.Late, map[bool]string{true: " header-changes-and-WriteHeader(500)-after-the-body"}[c.After])
+	return fmt.Sprintf("L=%d pos=%s %s status=%d writes=%v flush=%s declare=%v interim=%d entity=%d status2=%d trailer=%v%s emptywrite=%v%s asks-upgrade=%v copy=%v ctype=%q abort=%v late-header=%v%s", c.L, c.Position, c.Method, c.Status, c.Comp, c.Flush, c.Declare, c.Interim, c.Entity, c.Status2, c.Trailer, map[bool]string{true: "(set before the first write)"}[c.TrEarly], c.Empty, map[bool]string{true: fmt.Sprintf("(then header changes and WriteHeader(%d))", c.EmptyTh)}[c.EmptyTh != 0], c.AskUp, c.Copy, c.CType, c.Abort, c.Late, map[bool]string{true: " header-changes-and-WriteHeader(500)-after-the-body"}[c.After])
 }
 
 func (c c14Case) prog() *hprog {
@@ -294,7 +302,7 @@ func (c c14Case) prog() *hprog {
 		hd = append(hd, wire.HeaderLine{"Content-Length", fmt.Sprint(c.Entity)})
 	}
 	return &hprog{Status: c.Status, Header: hd, Parts: partsOf(c.Comp, 5),
-		FlushFirst: c.Flush == "first", FlushEach: c.Flush == "each", DeclareLen: c.Declare, Interim: c.Interim, Status2: c.Status2, Trailer: c.Trailer, TrailerEarly: c.TrEarly, EmptyWrite: c.Empty,
+		FlushFirst: c.Flush == "first", FlushEach: c.Flush == "each", DeclareLen: c.Declare, Interim: c.Interim, Status2: c.Status2, Trailer: c.Trailer, TrailerEarly: c.TrEarly, EmptyWrite: c.Empty, EmptyThen: c.EmptyTh,
 		FlushAfter: map[bool]int{true: 1}[c.Flush == "after-first"], Copy: c.Copy, AbortAfter: map[bool]int{true: 1}[c.Abort], LateHeader: c.Late, AfterBody: c.After}
 }
 
@@ -574,6 +582,8 @@ func TestVerifC14(t *testing.T) {
 							}
 						}
 						run(c14Case{L: L, Position: pos, Method: "GET", Status: st, Comp: comp, Flush: fl, Empty: true})
+						run(c14Case{L: L, Position: pos, Method: "GET", Status: st, Comp: comp, Flush: fl, Empty: true, EmptyTh: 404})
+						run(c14Case{L: L, Position: pos, Method: "GET", Status: st, Comp: comp, Flush: fl, Empty: true, EmptyTh: 204})
 					}
 				}
 			}
